@@ -70,11 +70,13 @@ def check_case(case, stats=None, via=None):
 
 
 def strategy():
-    return qgen.st_case_select(join_p=3, order=False, distinct=False, top=False, where_p=2)
+    from hypothesis import strategies as st
+    plain = qgen.st_case_select(join_p=3, order=False, distinct=False, top=False, where_p=2)
+    return st.one_of(plain, plain, plain, plain, qgen.st_case_typed(order=False, distinct=False, top=False))
 
 
 def shard(shard, nshards, tier, seed, scratch):
-    total = 4000 if tier == 'quick' else 150000
+    total = 12000 if tier == 'quick' else 200000
     stats = Stats()
     failures = run_hypothesis(strategy(), lambda c: check_case(c, stats), max(1, total // nshards), seed,
                               shrink_budget=300 if tier == 'quick' else 2000)
